@@ -5,6 +5,7 @@ out: {"case": n,
       "build":  s-expression of `build theCfg e`            (what `Column.expression` must be),
       "wellParen": Bool, "scope": [violated hypothesis names],
       "engine": s-expression of the tree the engine evaluates | null (syntax error), "fnsOK": Bool,
+      "litsOK": Bool (every literal's text is a literal to the engine), "sitesOK": Bool (raw operands are tagged with their position),
       "spec":  [denote e row]      over the cartesian product of the pools (first column slowest),
       "model": [engineValue row]   (null entries as {"err": true} when the engine raises)}
 Pure function of its input lines; evaluates the definitions the theorems of Props/C05.lean are about.
@@ -14,7 +15,7 @@ open Lean Sqlframe Sqlframe.C05
 
 structure ColPool where
   n : String
-  pool : List Val
+  pool : List CVal
   deriving FromJson
 
 structure Case where
@@ -23,11 +24,11 @@ structure Case where
   cols : List ColPool
   deriving FromJson
 
-def rowsOf : List ColPool → List (List (String × Val))
+def rowsOf : List ColPool → List (List (String × CVal))
   | [] => [[]]
   | c :: cs => c.pool.flatMap fun v => (rowsOf cs).map fun r => (c.n, v) :: r
 
-def envOf (r : List (String × Val)) : Env := fun n =>
+def envOf (r : List (String × CVal)) : Env := fun n =>
   match r.find? (fun kv => kv.1 == n) with
   | some kv => kv.2
   | none => .null
@@ -51,6 +52,8 @@ def handle (line : String) : String :=
       ("scope", toJson (violated theCfg c.e)),
       ("engine", match eng with | some t' => t'.toSexp | none => Json.null),
       ("fnsOK", toJson (match eng with | some t' => fnsOK t' | none => fnsOK t)),
+      ("litsOK", toJson (match eng with | some t' => litsOK t' | none => litsOK t)),
+      ("sitesOK", toJson (sitesOK c.e)),
       ("spec", Json.arr spec.toArray),
       ("model", Json.arr model.toArray)])
 
